@@ -54,7 +54,7 @@ package reader
 // timestamps are TSO hybrid timestamps (physical ms * 2^18 + logical): far below 2^62
 //@ spec tsoBounded(pack *msgstream.MsgPack) bool = pack.BeginTs < 4611686018427387904 && pack.EndTs < 4611686018427387904 && (forall k int :: {pack.StartPositions[k]} 0 <= k && k < len(pack.StartPositions) && pack.StartPositions[k] != nil ==> pack.StartPositions[k].Timestamp < 4611686018427387904)
 //@ func (*replicateChannelHandler).handlePack
-//@   props C03 C01
+//@   props C03 C01 C02
 //@   requires r != nil && pack != nil
 // the channel clock is well formed and lts <= cts: established by every function that writes the clock (their
 // postconditions above); its critical sections are serialised by channelTSLocks[key]
@@ -62,7 +62,7 @@ package reader
 // timestamps are TSO hybrid timestamps (physical ms * 2^18 + logical), far below 2^62: shifting never wraps
 //@   assumes hpCts(r) < 4611686018427387904 && tsoBounded(pack)
 //@   splitposts
-//@   private tsInfo.* tsManager.* umaps(string;*tsInfo) replicateChannelHandler.replicateID replicateChannelHandler.targetPChannel out outChannel outTask outCollection outKey api.ReplicateMsg.* removedColl msgpb.DropCollectionRequest.CollectionID msgstream.DropCollectionMsg.DropCollectionRequest
+//@   private tsInfo.* tsManager.* umaps(string;*tsInfo) replicateChannelHandler.replicateID replicateChannelHandler.targetPChannel out outChannel outTask outCollection outKey api.ReplicateMsg.* removedColl msgpb.DropCollectionRequest.CollectionID msgstream.DropCollectionMsg.DropCollectionRequest msgstream.MsgPack.Msgs
 //@   ensures [envelopes-that-existed-before-the-call-are-untouched] preservedStruct(api.ReplicateMsg)
 //@   ensures [the-last-tick-never-decreases] hpLts(r) >= old(hpLts(r))
 //@   ensures [the-clock-never-goes-back] hpCts(r) >= old(hpCts(r))
@@ -80,6 +80,13 @@ package reader
 // (the handler's records are keyed by source id; the target id of the dropped collection may be the source id of a
 // live one)
 //@   loop 3 invariant [a-record-is-removed-under-the-source-collection-id-of-the-message-being-processed] len(removedColl) >= prev(len(removedColl)) && (forall i int :: {removedColl[i]} prev(len(removedColl)) <= i && i < len(removedColl) ==> removedColl[i] == sourceCollectionID)
+// C02: what one pass through the message loop does with the message it keeps -
+// a message that stays in this handler's pack (nothing is being forwarded) belongs to a collection placed on this
+// handler's downstream channel and was read from this handler's source channel;
+//@   loop 3 step [a-message-kept-for-this-channel-belongs-to-it] len(newPack.Msgs) > prev(len(newPack.Msgs)) && forwardChannel == "" && info.PChannel != "" && originPositionPChannel != "" ==> r.targetPChannel == info.PChannel && r.sourcePChannel == originPositionPChannel
+// a pack that has to be forwarded is addressed by the side the handlers are keyed by: the downstream channel of the
+// collection when handlers are keyed by source channel, the channel the message was read from otherwise
+//@   loop 3 step [a-forwarded-pack-is-addressed-by-the-key-side] forwardChannel != prev(forwardChannel) ==> forwardChannel == ite(r.sourceKey, info.PChannel, originPositionPChannel)
 //@   loop 4 invariant hpInv(r)
 //@   loop 5 invariant hpInv(r)
 //@   modifies * except out outChannel outTask outCollection outKey
